@@ -76,8 +76,9 @@ GoodV == { v \in AllV : (v.op = 0 => ~v.epoch) /\ (v.hasArch <=> v.archs # <<>>)
 FewV == { Simple, FullV, RV(FALSE, 1, TRUE, FALSE, <<>>, <<>>), RV(TRUE, 0, FALSE, TRUE, <<TRUE>>, <<>>) }
 
 \* separator layouts: <<blanks before, blanks after>>
-CommaStyles == { << <<>>, <<W>> >>, << <<>>, <<>> >>, << <<W>>, <<W>> >>, << <<>>, <<NLt, W>> >>, << <<NLt>>, <<>> >> }
-PipeStyles  == { << <<W>>, <<W>> >>, << <<>>, <<>> >>, << <<NLt, W>>, <<W>> >>, << <<W>>, <<NLt, W>> >> }
+\* (the last of each: a long run of blank tokens - blank, newline, blank, newline, blank)
+CommaStyles == { << <<>>, <<W>> >>, << <<>>, <<>> >>, << <<W>>, <<W>> >>, << <<>>, <<NLt, W>> >>, << <<NLt>>, <<>> >>, << <<W, NLt, W, NLt, W>>, <<NLt, W, NLt, W>> >> }
+PipeStyles  == { << <<W>>, <<W>> >>, << <<>>, <<>> >>, << <<NLt, W>>, <<W>> >>, << <<W>>, <<NLt, W>> >>, << <<W, NLt, W, NLt, W>>, <<W, NLt, W>> >> }
 Sep(k, sty) == sty[1] \o <<P(k)>> \o sty[2]
 
 Substvar(e) == << Tk("DOLLAR", e, 0, "sv", 0, FALSE), Tk("L_CURLY", e, 0, "sv", 0, FALSE), Tk("IDENT", e, 0, "sv", 0, FALSE),
@@ -147,7 +148,7 @@ Positions(TT, i, p) == IF i > Len(TT) THEN <<>> ELSE << <<TT[i].k, p, 1>> >> \o 
 MkCase(TT, items, allow) ==
   [toks |-> Positions(TT, 1, 1), allow |-> allow, exp |-> Expected(TT, items), canon |-> CanonOf(Expected(TT, items)),
    roles |-> [i \in 1..Len(TT) |-> <<TT[i].role, TT[i].e, TT[i].r, TT[i].g>>],
-   hasSv |-> \E e \in 1..Len(items) : items[e].k = "S"]
+   hasSv |-> \E e \in 1..Len(items) : items[e].k = "S", dup |-> FALSE]
 
 E1(v) == [k |-> "E", vs |-> <<v>>]
 E2(v, w) == [k |-> "E", vs |-> <<v, w>>]
@@ -189,6 +190,10 @@ MCInit ==
   \/ \E v \in FewV, cs \in CommaStyles, pos \in 1..3 :
        LET items == IF pos = 1 THEN <<SV, E1(v)>> ELSE IF pos = 2 THEN <<E1(v), SV>> ELSE <<E1(v), SV, E2(Simple, v)>> IN
        InitWith(MkCase(Field(items, 1, cs, DefP, <<>>, FALSE, <<>>), items, TRUE))
+  \* the same alternative twice in one entry (dup: the harness gives both the same texts)
+  \/ \E v \in { Simple, RV(FALSE, 1, TRUE, FALSE, <<>>, <<>>), RV(TRUE, 0, FALSE, FALSE, <<>>, <<>>) }, w \in FewV, third \in BOOLEAN :
+       LET items == IF third THEN <<E2(v, v), E1(w)>> ELSE <<[k |-> "E", vs |-> <<v, w, v>>]>> IN
+       InitWith([MkCase(Field(items, 1, DefC, DefP, <<>>, FALSE, <<>>), items, FALSE) EXCEPT !.dup = TRUE])
   \/ RandInit
   \* larger cover
   \/ Big /\ \E v \in GoodV, w \in FewV, s \in 1..3, ps \in PipeStyles :
@@ -201,5 +206,5 @@ FieldAccepted == Done => nerr = 0 /\ Structure = case.exp
 
 Emit == Done => PrintT(<<"REPLAY", ToJson([
            t |-> [k \in 1..Len(toks) |-> toks[k][1]], a |-> case.allow, x |-> case.exp, cn |-> case.canon, r |-> case.roles,
-           sv |-> case.hasSv, e |-> nerr, o |-> out ])>>)
+           sv |-> case.hasSv, dup |-> case.dup, e |-> nerr, o |-> out ])>>)
 =============================================================================
